@@ -123,7 +123,7 @@ PROPS = {
 # headline theorems that must exist (and be axiom-clean) in each property's namespace: removing,
 # renaming or failing to prove one of them is a broken proof obligation
 REQUIRED = {
- 'C01':['transfer_conserves','transfer_others_untouched','sweep_moves_exactly','payout_conserves','applySend_total','handle_total','vesting_never_changes_supply','distributor_block_ledger','bank_send_ledger','bank_burn_ledger','tie_bank_mutators','tie_minter_before_distributor'],
+ 'C01':['transfer_conserves','transfer_others_untouched','sweep_moves_exactly','payout_conserves','applySend_total','handle_total','vesting_never_changes_supply','distributor_block_ledger','bank_send_ledger','bank_burn_ledger','custom_beginblock_supply','custom_beginblock_balances','tie_bank_mutators','tie_minter_before_distributor'],
  'C02':['path_independent','cadence_irrelevant','valid_of_validate','linear_exact','carry_exact','exParams_valid'],
  'C03':['books_after_block','books_after_block_nonvacuous','books_after_block_bridge','bridge_checked_block','allSubOkB_sound','nonnegB_sound','validated_params_books','faithful_sub_step','faithful_block_books','reach_blockInv','books_after_every_block','reach_nonNegativeStates','faithful_block_nonvacuous','blockInv_empty'],
  'C04':['share_truncation','allocation_conserves','no_main_dest_all_to_states','cumulative_allocation','payout_carry','cumulative_receipts_drift','faithful_allocation_conserves','distShares_states'],
@@ -132,7 +132,7 @@ REQUIRED = {
  'C07':['unlock_exact','orig_over_releases','unlock_exact_nonvacuous'],
  'C08':['vestedPart_exact','vestedPart_bounds','newVestingAccount_post','send_above_locked_fails','bumpLast_adds_exactly','createVA_post'],
  'C09':['newCva_other','send_keeps_existing','createVA_rejects_existing','newVestingAccount_rejects_existing','splitCoins_rejects_existing','unlock_shape','keepsExcept_splitCoins','existing_untouched','existing_untouched_history','tie_account_writers'],
- 'C10':['minter_no_halt','no_negative_sub','validated_denom','tie_no_unguarded_int64','distributor_block_completes','distributor_never_halts','distributor_block_nonvacuous'],
+ 'C10':['minter_no_halt','no_negative_sub','validated_denom','tie_no_unguarded_int64','distributor_block_completes','distributor_never_halts','distributor_block_nonvacuous','block_completes_with_registered_invariants','custom_beginblock_never_halts'],
  'C11':['last_occurrence_order_irrelevant','tie_nondet_sites'],
  'C12':['minter_roundtrip','minter_behaviour_preserved','distr_state_roundtrip','period_roundtrip','sig_roundtrip_fails'],
  'C13':['minter_authority_only','distr_full_stored_valid','distr_sub_stored_valid','distr_share_stored_valid','distr_burn_stored_valid','denom_frozen','minter_update_requires_current'],
